@@ -8,6 +8,9 @@ HARNESS = 'correspondence harness /verif/harness (generators, canonicalisers, or
 PROPS = {
     'C07': {
         'modules': ['AnemoModel.Props.C07'],
+        'technique': 'Lean 4 theorems (round trip, layout, prefix rejection, exact acceptance) over a codec model; tables regenerated from source; byte-for-byte differential correspondence',
+        'level_text': 'Machine-checked proof, for every message and every byte string, that the modelled codec round-trips losslessly (any header order), follows the fixed layout (golden vector proved by decide), drops extensions, rejects every strict prefix, any other preamble, unknown versions and unknown status codes; the decoders are total by construction. The model is tied to wire.rs on every run: the preamble/Version/StatusCode tables are regenerated from the source, and the real encoder/decoders are run against the model byte for byte on ~28k (quick) structured and malformed inputs, plus golden vectors pinning the real encoder. Full for the codec model; panic-freedom of third-party parsers is tested, not proved.',
+        'level_note': 'Trusted: Lean kernel; axioms propext/Quot.sound/Classical.choice only; tools/gen.py; the harness and driver; tokio-util LengthDelimitedCodec, bincode 1.3 and serde HashMap behaviour are modelled from their source and validated only by the differential run.',
         'rule': 'structured valid messages built from the repo\'s Request/Response types (routes, 0-300 headers, bodies up to 16 KiB quick / 256 KiB thorough) encoded by the real encoder and by the model (bytes compared exactly, header order = the HashMap\'s own iteration order), decoded by both; every strict prefix (all offsets for messages <= 80 bytes, 24 sampled otherwise); a malformed stream (random bytes, mutated-valid, huge frame/bincode lengths); golden vectors in corpus/C07 pin the real encoder. distinct_nontrivial = distinct op lines that get past the preamble check',
         'trusted_base': [KERNEL, AXIOMS, TRANSLATOR + ': ANEMO, Version, StatusCode', HARNESS,
                          'modelled, validated only differentially: tokio-util LengthDelimitedCodec 0.7, bincode 1.3 (fix-int, legacy `deserialize`), serde HashMap (de)serialisation, Rust String UTF-8 validation'],
